@@ -161,7 +161,7 @@ Section Combinators.
     | [] => (MVal VNil, st)
     | (c, b) :: r =>
         match ev c st with
-        | (MVal v, st1) => if is_nil v then m_cond r st1 else m_seq never b v st1   (* a clause without forms returns the test value (0170ebc) *)
+        | (MVal v, st1) => if is_nil (prim v) then m_cond r st1 else m_seq never b (prim v) st1   (* the first value of the test decides and is what a clause without forms returns (0170ebc, repo_fixes/C01-19) *)
         | (o, st1) => (o, st1)
         end
     end.
@@ -251,7 +251,7 @@ Section M.
           m_seq (ev sc tb) never body VNil st
       | When c body =>
           match ev sc tb c st with
-          | (MVal v, st1) => if is_nil v then (MVal VNil, st1) else m_seq (ev sc tb) never body VNil st1
+          | (MVal v, st1) => if is_nil (prim v) then (MVal VNil, st1) else m_seq (ev sc tb) never body VNil st1   (* when.go tests firstValue(..) since repo_fixes/C01-19 *)
           | (o, st1) => (o, st1)
           end
       | Cond cs => m_cond (ev sc tb) cs st
